@@ -150,7 +150,7 @@ func genMuxRandom(r *vh.RNG) muxSched {
 		}
 		s.Posters = append(s.Posters, ps)
 	}
-	s.StopMid = r.Chance(15)
+	s.StopMid = r.Chance(35) // Stop racing the posters and the unsubscribers
 	return s
 }
 
@@ -376,7 +376,7 @@ func muxTranslate(evs []event.VerifEvent) ([]string, string) {
 			}
 		}
 		switch e.Point {
-		case "msub_ret", "munsub_call", "munsub_ret", "mstop_call", "mstop_ret", "mrecv", "mrecv_closed":
+		case "msub_ret", "munsub_call", "munsub_ret", "mstop_call", "mstop_ret", "mrecv", "mrecv_closed", "deliver_begin":
 		case "sub_add":
 			newSub()
 			ls = append(ls, fmt.Sprintf("add:%d:%d", e.Ch, e.Arg))
@@ -415,6 +415,30 @@ func muxTranslate(evs []event.VerifEvent) ([]string, string) {
 		}
 	}
 	return ls, ""
+}
+
+// muxProject returns, per subscription, the closewait / deliver protocol events (labels of PostMuLTS).
+func muxProject(evs []event.VerifEvent) map[int][]string {
+	out := map[int][]string{}
+	for _, e := range evs {
+		l := ""
+		switch e.Point {
+		case "deliver_begin":
+			l = "b"
+		case "deliver_sent":
+			l = "s"
+		case "deliver_closed":
+			l = "c"
+		case "closing":
+			l = "g"
+		case "postc_close":
+			l = "x"
+		}
+		if l != "" && e.Ch > 0 {
+			out[e.Ch] = append(out[e.Ch], l)
+		}
+	}
+	return out
 }
 
 func muxOracle(s muxSched, o muxOutcome) (observed string, vs []verdict) {
@@ -491,7 +515,18 @@ func muxOracle(s muxSched, o muxOutcome) (observed string, vs []verdict) {
 		}
 		gs = append(gs, fmt.Sprintf("%d:%s", id, strings.Join(xs, ".")))
 	}
-	return fmt.Sprintf("accepted d=%d got=%s panicked=false", total, strings.Join(gs, ";")), vs
+	var perr []int
+	for pid, p := range posts {
+		if p.ret >= 0 && p.err == 1 {
+			perr = append(perr, pid)
+		}
+	}
+	sort.Ints(perr)
+	var pe []string
+	for _, x := range perr {
+		pe = append(pe, fmt.Sprint(x))
+	}
+	return fmt.Sprintf("accepted d=%d got=%s perr=%s panicked=false", total, strings.Join(gs, ";"), strings.Join(pe, ".")), vs
 }
 
 func muxPart(c *vh.Ctx, m *vh.Model, replay *muxSched) {
@@ -568,6 +603,7 @@ func muxPart(c *vh.Ctx, m *vh.Model, replay *muxSched) {
 		idx = append(idx, i)
 	}
 	answers := m.AskAll(reqs)
+	var preqs, pobs []string
 	for k, i := range idx {
 		s, r := scheds[i], results[i]
 		observed, vs := muxOracle(s, r)
@@ -584,8 +620,28 @@ func muxPart(c *vh.Ctx, m *vh.Model, replay *muxSched) {
 		for _, v := range vs {
 			c.Violate(v.sig, v.what, map[string]interface{}{"mux_schedule": s, "history": evText(r.events)})
 		}
+		proj := muxProject(r.events)
+		var sids []int
+		for id := range proj {
+			sids = append(sids, id)
+		}
+		sort.Ints(sids)
+		for _, id := range sids {
+			preqs = append(preqs, "prun "+strings.Join(proj[id], " "))
+			// observed from the black-box side: the subscription's channel was closed iff the reader saw it closed; no panic
+			closed := false
+			for _, e := range r.events {
+				if e.Point == "mrecv_closed" && e.Ch == id {
+					closed = true
+				}
+			}
+			pobs = append(pobs, fmt.Sprintf("accepted closed=%v readers=0 bad=false", closed))
+		}
 		if k < 2 {
 			c.Sample(map[string]interface{}{"mux_schedule": s, "labels": reqs[k], "model": answers[k]})
 		}
+	}
+	for k, a := range m.AskAll(preqs) {
+		c.Correspond("TypeMuxSubscription(closewait/deliver trace)~PostMuLTS.prun", preqs[k], pobs[k], a)
 	}
 }
